@@ -42,7 +42,7 @@ def _configs(tier):
                         # dt0 smaller / equal / larger than the checkpoint spacing, cycled over the 240 combinations
                         dt0 = (1, F(1, 4), 4)[j % 3]
                         j += 1
-                        ma = (12 if ctrl == "I_1_2" else 13) if ctrl.startswith("I") else 10
+                        ma = 12 if ctrl.startswith("I") else 10
                         plan.append((lay, prof, ctrl, clip, dt0, ma))
     for j, (lay, prof, ctrl, clip, dt0, ma) in enumerate(plan):
         # every other configuration offers error powers far below one, so that the LOWER factor clip is active
